@@ -9,10 +9,10 @@ DST=/verif/seeded/$ID; mkdir -p $DST
 cp "$WT/$SUB/patch.diff" "$WT/$SUB/demo.rs" $DST/ 2>/dev/null; cp "$WT/$SUB/README.md" $DST/README.md 2>/dev/null
 cd "$WT" && git checkout -q -- src && rm -f tests/seed_demo.rs
 mkdir -p tests && cp $DST/demo.rs tests/seed_demo.rs
-echo "== demo WITHOUT the change (must pass)"; cargo test --offline --test seed_demo 2>&1 | grep -E "^test result|error\[" | head -3; R_CLEAN=${PIPESTATUS[0]}
+echo "== demo WITHOUT the change (must pass)"; cargo test --offline ${SEED_FEATURES:-} --test seed_demo 2>&1 | grep -E "^test result|error\[" | head -3; R_CLEAN=${PIPESTATUS[0]}
 git apply $DST/patch.diff || { echo "PATCH DOES NOT APPLY"; exit 2; }
 echo "== 66 unit tests WITH the change (must pass)"; cargo test --offline --lib 2>&1 | grep -E "^test result" | head -2
-echo "== demo WITH the change (must fail)"; cargo test --offline --test seed_demo 2>&1 | grep -E "^test result|panicked" | sort -r | head -4
+echo "== demo WITH the change (must fail)"; cargo test --offline ${SEED_FEATURES:-} --test seed_demo 2>&1 | grep -E "^test result|panicked" | sort -r | head -4
 git checkout -q -- src; rm -f tests/seed_demo.rs
 echo "== checks on /repo with the change applied"
 cd /repo && git diff --quiet || { echo "/repo is dirty, abort"; exit 3; }
